@@ -164,8 +164,31 @@ def align_unions(fam, t, live):
 _BASIC_KINDS = ("int", "float", "bool", "str", "none")
 
 
-def earlier_member(ref, t, v):
+def earlier_member(ref, t, v, _cls=None, _depth=0):
+    """F20 mechanism fact: somewhere in the value (containers, dataclass / NamedTuple / TypedDict members, Self) a union
+    position holds a value whose own non-scalar member is declared AFTER another non-scalar member."""
     s = tast.strip(t)
+    if _depth > 12:
+        return False
+    if s[0] in ("dc", "gdc", "self") and v is not None:
+        name = _cls if s[0] == "self" else s[1]
+        if name is None or name not in ref.fam.defs:
+            return False
+        out = False
+        for f in ref.fam.dc_fields(name):
+            try:
+                x = getattr(v, f["n"])
+            except AttributeError:
+                continue
+            try:
+                out = out or bool(earlier_member(ref, f["t"], x, name, _depth + 1))
+            except Exception:
+                pass
+        return out
+    if s[0] == "nt" and isinstance(v, tuple):
+        return any(earlier_member(ref, f["t"], x, _cls, _depth + 1) for f, x in zip(ref.fam.defs[s[1]]["fields"], v))
+    if s[0] == "td" and isinstance(v, dict):
+        return any(earlier_member(ref, f["t"], v[f["n"]], _cls, _depth + 1) for f in ref.fam.defs[s[1]]["fields"] if f["n"] in v)
     if s[0] == "tv":
         df = ref.fam.defs[s[1]]
         if df.get("constraints"):
@@ -179,15 +202,15 @@ def earlier_member(ref, t, v):
         before = ms[:ms.index(owner)]
         return any(tast.strip(m)[0] not in _BASIC_KINDS for m in before)
     if s[0] == "opt":
-        return v is not None and earlier_member(ref, s[1], v)
+        return v is not None and earlier_member(ref, s[1], v, _cls, _depth + 1)
     if s[0] == "seq":
-        return any(earlier_member(ref, s[2], x) for x in v)
+        return any(earlier_member(ref, s[2], x, _cls, _depth + 1) for x in v)
     if s[0] == "map":
-        return any(earlier_member(ref, s[3], x) for x in v.values())
+        return any(earlier_member(ref, s[3], x, _cls, _depth + 1) for x in v.values())
     if s[0] == "vtuple":
-        return any(earlier_member(ref, s[2], x) for x in v)
+        return any(earlier_member(ref, s[2], x, _cls, _depth + 1) for x in v)
     if s[0] == "tuple":
-        return any(earlier_member(ref, m, x) for m, x in zip(s[2], v))
+        return any(earlier_member(ref, m, x, _cls, _depth + 1) for m, x in zip(s[2], v))
     return False
 
 
